@@ -38,7 +38,7 @@ func line(box orb.Bound, in orb.LineString, open bool) orb.MultiLineString {
 
 		// loops through all the intersection of the line and box.
 		// eg. across a corner could have two intersections.
-		for {
+		for n := 0; ; n++ {
 			if codeA|codeB == 0 {
 				// both points are in the box, accept
 				out = push(out, line, a)
@@ -59,12 +59,18 @@ func line(box orb.Bound, in orb.LineString, open bool) orb.MultiLineString {
 				// A is outside, B is inside, clip edge
 				if bitCode(box, a) != 0 {
 					a = intersect(box, codeA, a, b)
+					if n >= 8 {
+						a = clamp(box, a)
+					}
 				} // else open bound, a is on the boundary and is its own intersection
 				codeA = bitCode(box, a)
 			} else {
 				// B is outside, A is inside, clip edge
 				if bitCode(box, b) != 0 {
 					b = intersect(box, codeB, a, b)
+					if n >= 8 {
+						b = clamp(box, b)
+					}
 				} // else open bound, b is on the boundary and is its own intersection
 				codeB = bitCode(box, b)
 			}
@@ -74,6 +80,22 @@ func line(box orb.Bound, in orb.LineString, open bool) orb.MultiLineString {
 	}
 
 	return out
+}
+
+// clamp moves a point onto the box. A segment needs at most four
+// intersections to be clipped; if the loop is still going after that,
+// the segment passes through a corner and rounding puts each new
+// intersection just outside the neighbouring edge, forever.
+func clamp(box orb.Bound, p orb.Point) orb.Point {
+	for i := 0; i < 2; i++ {
+		if p[i] < box.Min[i] {
+			p[i] = box.Min[i]
+		} else if p[i] > box.Max[i] {
+			p[i] = box.Max[i]
+		}
+	}
+
+	return p
 }
 
 func push(out orb.MultiLineString, i int, p orb.Point) orb.MultiLineString {
